@@ -180,7 +180,7 @@ type callInfo struct {
 
 func invoke(desc Ev, f func()) (ci callInfo) {
 	before := capSize()
-	c0 := cmpCount
+	c0 := cmpCalls()
 	wdCurrent.Store(desc)
 	wdDeadline.Store(time.Now().Add(wdLimit).UnixNano())
 	func() {
@@ -193,7 +193,7 @@ func invoke(desc Ev, f func()) (ci callInfo) {
 		f()
 	}()
 	wdDeadline.Store(0)
-	ci.Cmps = cmpCount - c0
+	ci.Cmps = cmpCalls() - c0
 	ci.Out = int(capSize() - before)
 	return
 }
@@ -201,7 +201,10 @@ func invoke(desc Ev, f func()) (ci callInfo) {
 // ---------------------------------------------------------------------------------------------
 // comparators as rank functions (a strict weak order is a ranking); they count their calls
 
-var cmpCount int
+// comparator call counter; atomic so that the comparators themselves are race free (family RD)
+var cmpCounter atomic.Int64
+
+func cmpCalls() int { return int(cmpCounter.Load()) }
 
 func rankOf(mode string, x int) int {
 	switch mode {
@@ -215,7 +218,7 @@ func rankOf(mode string, x int) int {
 
 func cmpInt(mode string) func(a, b int) int {
 	return func(a, b int) int {
-		cmpCount++
+		cmpCounter.Add(1)
 		ra, rb := rankOf(mode, a), rankOf(mode, b)
 		switch {
 		case ra < rb:
@@ -255,7 +258,7 @@ func rankPE(mode string, x PE) int {
 
 func cmpPE(mode string) func(a, b PE) int {
 	return func(a, b PE) int {
-		cmpCount++
+		cmpCounter.Add(1)
 		ra, rb := rankPE(mode, a), rankPE(mode, b)
 		switch {
 		case ra < rb:
